@@ -562,6 +562,8 @@ def __eval(node):
     """
     if isinstance(node, ast.Constant):  # <number>
         return node.value
+    if isinstance(node, (ast.BinOp, ast.UnaryOp)) and type(node.op) not in OPERATORS:
+        raise TypeError(node)
     if isinstance(node, ast.BinOp):  # <left> <operator> <right>
         return OPERATORS[type(node.op)](__eval(node.left), __eval(node.right))
     if isinstance(node, ast.UnaryOp):  # <operator> <operand> e.g., -1
